@@ -150,6 +150,10 @@ impl Record {
 
     /// Returns the start position of the given interval.
     ///
+    /// # Errors
+    ///
+    /// An error is returned if the interval starts past the end of the sequence.
+    ///
     /// # Examples
     ///
     /// ```
@@ -167,13 +171,24 @@ impl Record {
     /// Ok::<_, std::io::Error>(())
     /// ```
     pub fn query(&self, interval: Interval) -> io::Result<u64> {
-        let start = interval
-            .start()
-            .map(|position| usize::from(position) - 1)
-            .unwrap_or_default();
+        let start = match interval.start() {
+            Some(position) => {
+                let start = u64::try_from(usize::from(position) - 1)
+                    .map_err(|e| io::Error::new(io::ErrorKind::InvalidInput, e))?;
 
-        let start =
-            u64::try_from(start).map_err(|e| io::Error::new(io::ErrorKind::InvalidInput, e))?;
+                // A start past the end of the sequence would resolve to a byte of a following
+                // line, i.e., a definition or the bases of another record.
+                if start >= self.length {
+                    return Err(io::Error::new(
+                        io::ErrorKind::InvalidInput,
+                        "start position is past the end of the sequence",
+                    ));
+                }
+
+                start
+            }
+            None => 0,
+        };
 
         let line_base_count = self.line_base_count.get();
         let line_width = self.line_width.get();
